@@ -534,9 +534,11 @@ class TokenAwareBinding(object):
     def replicas(self, key):
         return [self.inv.get(r.endpoint, 0) for r in self.md.get_replicas(self.ks, self.PL.key_bytes(key))]
 
-    def plan(self, key, child, up, dist, shuffle):
+    def plan(self, key, child, up, dist, shuffle, interleave=False):
         """child: list of instance host numbers; up/dist: dict instance host -> "T"/"F"/"N" / distance name.
-        Returns (list of instance host numbers, error text or None)."""
+        Returns (list of instance host numbers, error text or None).
+        interleave=True: the plan is consumed lazily and, after its first host, a second plan for the same
+        statement is created and exhausted (concurrent requests for one token) before the first is finished."""
         HD = self.P.HostDistance
         names = {"LOCAL": HD.LOCAL, "REMOTE": HD.REMOTE, "IGNORED": HD.IGNORED}
         try:
@@ -546,7 +548,17 @@ class TokenAwareBinding(object):
             pol = self.P.TokenAwarePolicy(fixed, shuffle_replicas=shuffle)
             pol.populate(_Cluster(self.md, []), list(self.hosts.values()))
             stmt = self.Q.SimpleStatement("SELECT v FROM t WHERE k = 0", routing_key=self.PL.key_bytes(key), keyspace=self.ks)
-            out = [self.inv.get(getattr(h, "endpoint", None), 0) for h in pol.make_query_plan(None, stmt)]
+            if interleave:
+                g1 = iter(pol.make_query_plan(None, stmt))
+                got = []
+                for h in g1:
+                    got.append(h)
+                    break
+                list(pol.make_query_plan(None, stmt))
+                got.extend(g1)
+                out = [self.inv.get(getattr(h, "endpoint", None), 0) for h in got]
+            else:
+                out = [self.inv.get(getattr(h, "endpoint", None), 0) for h in pol.make_query_plan(None, stmt)]
             return out, None
         except Exception as ex:
             return [], "%s: %s" % (type(ex).__name__, ex)
